@@ -204,11 +204,11 @@ def build_shim():
     name = os.path.basename(cands[0])[3:-3]
     out = os.path.join(lib.ensure_dir(os.path.join(lib.BUILD, "bin")), "libpoolshim%s.so" % TAG)
     cmd = ["g++", "-std=c++17", "-O1", "-fPIC", "-shared", "-I" + os.path.join(lib.REPO, "src", "python", "PyImath"),
-           os.path.join(lib.VERIF, "harness", "py", "poolshim.cpp"), "-o", out + ".new", "-L" + libdir, "-l" + name, "-lpthread"]
+           os.path.join(lib.VERIF, "harness", "py", "poolshim.cpp"), "-o", out + ".new%d" % os.getpid(), "-L" + libdir, "-l" + name, "-lpthread"]
     rc, o = lib.sh(cmd, timeout=300)
     if rc != 0:
         return False, out, o
-    os.replace(out + ".new", out)
+    os.replace(out + ".new%d" % os.getpid(), out)
     return True, out, o
 
 
